@@ -12,6 +12,15 @@ def stringOfBytes (b : Bytes) : String :=
     if c.isAlphanum || c == '.' || c == '-' || c == '_' then [c]
     else ['%', hexDigit (x.toNat / 16), hexDigit (x.toNat % 16)])
 
+/-- `~xx` in a path of the sandbox spec stands for the byte xx -/
+def untilde : Bytes → Bytes
+  | 126 :: a :: b :: rest =>
+    match bytesOfHex (String.ofList [Char.ofNat a.toNat, Char.ofNat b.toNat]) with
+    | some [v] => v :: untilde rest
+    | _ => 126 :: untilde (a :: b :: rest)
+  | x :: rest => x :: untilde rest
+  | [] => []
+
 structure CfgFlags where
   single : Bool := false
   ro : Bool := false
@@ -51,11 +60,11 @@ def parseFs (root : Bytes) (fl : CfgFlags) (s : String) : Option Fs :=
   if s = "-" then some (anc ++ base) else
   (s.splitOn ",").foldlM (fun (fs : Fs) item =>
     if item.endsWith "/" then
-      let p := components (bytesOfString item)
+      let p := components (untilde (bytesOfString item))
       some ((withParents fs p).set (rootCs ++ p) .dir)
     else match item.splitOn "=" with
       | [p, h] => do
-        let pc := components (bytesOfString p)
+        let pc := components (untilde (bytesOfString p))
         -- `@name`: a symbolic link to a file of the same directory, named earlier in the spec (reads follow it)
         let c ← if h.startsWith "@" then
             (match fs.lookup (rootCs ++ pc.dropLast ++ [bytesOfString (h.drop 1).toString]) with
